@@ -1312,9 +1312,19 @@ class DocutilsRenderer(RendererProtocol):
         bibliofields = get_language(language_code).bibliographic_fields
 
         for key, value in data.items():
-            if not isinstance(value, str | int | float | date | datetime):
-                value = json.dumps(value, default=str)
-            value = str(value)
+            try:
+                if not isinstance(value, str | int | float | date | datetime):
+                    value = json.dumps(value, default=str)
+                value = str(value)
+            except ValueError as error:
+                # e.g. an integer beyond Python's limit for int -> str conversion
+                self.create_warning(
+                    f"front matter value of {key!r} cannot be shown: {error}",
+                    MystWarnings.MD_TOPMATTER,
+                    line=line,
+                    append_to=self.current_node,
+                )
+                continue
             body = nodes.paragraph()
             body.source, body.line = self.document["source"], line
             if key in bibliofields:
